@@ -367,6 +367,8 @@ impl Check for RwaCheck {
             vec!["C01"]
         } else if check.starts_with("auth.") || check.starts_with("allowance.") {
             vec!["C02"]
+        } else if check.starts_with("pause.") {
+            vec!["C04", "C16"]
         } else if check == "fail.no_trace" || check == "state.model_eq" {
             vec!["C01", "C02", "C04"]
         } else {
@@ -561,6 +563,7 @@ impl Check for RwaCheck {
                 st.hit(if kind == "transfer" { "probe.transfer_under_closed_gate" } else { "probe.transfer_from_under_closed_gate" });
             }
             let snap_allow = m.allow.clone();
+            let snap_paused = m.paused;
             let exp = m.apply(s);
             let is_collab = matches!(s, Step::SetIdentity { .. } | Step::SetCompliance { .. } | Step::SetTarget { .. });
             if !is_collab {
@@ -576,6 +579,8 @@ impl Check for RwaCheck {
                 let check = match (kind, got) {
                     ("transfer" | "transfer_from", true) if unsigned => "auth.principal_must_authorize",
                     ("transfer_from", true) if short_allowance => "auth.debit_needs_holder_or_allowance",
+                    // went through although the token is paused: the pausable clause proper (C16 as well as C04)
+                    ("transfer" | "transfer_from" | "mint", true) if snap_paused => "pause.gated_fail_while_paused",
                     ("transfer", true) => "gate.transfer",
                     ("transfer_from", true) => "gate.transfer_from",
                     ("mint", true) => "gate.mint",
